@@ -49,6 +49,7 @@ var props = map[string]propCfg{
 	"C11": {gen.FSet, 60, 3000, 100000, 100, "set command programs"},
 	"C12": {gen.FZSet, 120, 4000, 150000, 80, "sorted-set command programs"},
 	"C18": {gen.FStream, 60, 3000, 100000, 40, "stream command programs"},
+	"C03": {gen.FMixed, 40, 3000, 100000, 200, "programs mixing every command family with frame-breaking payloads and key names; strict framing"},
 }
 
 var (
@@ -92,7 +93,7 @@ func shrink(prog []gen.Cmd, sig string) []gen.Cmd {
 		return prog
 	}
 	same := func(p []gen.Cmd) bool {
-		divs, _ := seqrun.Run(p, seqrun.Opts{})
+		divs, _ := seqrun.Run(p, seqrun.Opts{Strict: *fProp == "C03"})
 		for _, d := range divs {
 			if d.Step == len(p)-1 && d.Sig == sig {
 				return true
@@ -123,7 +124,7 @@ func worker(o *common.Opts, cfg propCfg) {
 	seenSig := map[string]bool{}
 	for idx := *fFrom; idx < *fTo; idx++ {
 		prog := gen.Program(progRand(o.Seed, idx), cfg.family, cfg.maxSteps)
-		divs, st := seqrun.Run(prog, seqrun.Opts{Journal: j, Prog: idx})
+		divs, st := seqrun.Run(prog, seqrun.Opts{Journal: j, Prog: idx, Strict: *fProp == "C03"})
 		out.Progs++
 		out.Steps += st.Steps
 		out.Unspec += st.Unspecified
@@ -209,7 +210,7 @@ func replay(o *common.Opts, prop string) int {
 		}
 		prog = append(prog, c)
 	}
-	divs, _ := seqrun.Run(prog, seqrun.Opts{})
+	divs, _ := seqrun.Run(prog, seqrun.Opts{Strict: prop == "C03"})
 	for _, x := range divs {
 		fmt.Printf("step %d %v: %s want %s got %s %s\n", x.Step, x.Cmd, x.Kind, x.Want, x.Got, x.Detail)
 		if x.Sig == d.Sig {
@@ -374,6 +375,27 @@ func main() {
 		}
 	}
 
+	tcpNote := ""
+	tcpPipes, tcpCmds := 0, 0
+	tcpNames := map[string]int{}
+	if prop == "C03" {
+		// only framing matters here; behavioural divergences belong to C01/C09-C12/C18
+		for s, d := range bySig {
+			if d.Kind != "framing" {
+				delete(bySig, s)
+			}
+		}
+		var mdivs []seqrun.Div
+		tcpPipes, tcpCmds, tcpNames, mdivs, tcpNote = markerPhase(o, o.Pick(400, 12000))
+		for _, d := range mdivs {
+			if _, ok := bySig[d.Sig]; !ok {
+				bySig[d.Sig] = d
+			}
+		}
+		if tcpNote != "" {
+			inconclusive = tcpNote
+		}
+	}
 	sigs := make([]string, 0, len(bySig))
 	for s := range bySig {
 		sigs = append(sigs, s)
@@ -439,6 +461,12 @@ func main() {
 			"in-process execution through server.Manager.ExecCommand with hooks of build tag verif (VerifDump/VerifCheck/VerifStripesFree)",
 			"deadlines used in these programs are far in the future or invalid, so no verdict depends on the clock",
 		}}
+	if prop == "C03" {
+		ev.Coverage["tcp_marker_pipelines"] = tcpPipes
+		ev.Coverage["tcp_marker_commands_in_sync"] = tcpCmds
+		ev.Coverage["tcp_marker_commands_by_name"] = tcpNames
+		ev.Coverage["strict_framing"] = true
+	}
 	if inconclusive != "" {
 		ev.Coverage["inconclusive"] = inconclusive
 	}
